@@ -93,10 +93,18 @@ structure Cause where
   kind : CauseKind := .shutdown
   before : Bool := false        -- abort() called before run_forever was started
   time : Nat := 0               -- instant of the request
+  target : Option Nat := none   -- handlerErr: the block whose event handler raises
   raiseAfter : Bool := false    -- inner causes: an ordinary exception (the next evaluated CBlock
                                 -- raises) ends the try block before the task awaits anything
   late : Bool := false          -- a further request arrives during the clean-up (abort() ignores it)
   deriving Repr, Inhabited
+
+/-- what the persistent storage does when the simulation is being stopped -/
+inductive SFault where
+  | none        -- works
+  | write       -- `__setitem__` raises (disk full, closed shelf, …)
+  | writePop    -- `__setitem__` and `pop` raise
+  deriving DecidableEq, Repr, Inhabited
 
 structure Cfg where
   blocks : List Blk := []
@@ -104,6 +112,7 @@ structure Cfg where
   waitInit : Bool := false      -- an application task awaits wait_init()
   oa : List Nat := []           -- order in which the set of async blocks was iterated
   os : List Nat := []           -- order in which the set of the remaining blocks was iterated
+  storageFault : SFault := .none
   deriving Repr, Inhabited
 
 inductive Res where
@@ -412,6 +421,8 @@ structure Plan where
   timers : List Nat           -- timer handles pending when the clean-up begins
   helper : Bool               -- wait_init() is still waiting
   pendingCancel : Bool        -- a cancellation of the simulation task is still to be delivered
+  noPersist : Option Nat      -- `AddonPersistence.event` disabled the persistence of this block, because its
+                              -- handler raised and stopped the simulation ("the state may be corrupted")
   deriving Repr, Inhabited
 
 def plan (c : Cfg) : Plan :=
@@ -458,7 +469,8 @@ def plan (c : Cfg) : Plan :=
     helper := c.waitInit && !initDone
     -- abort() was called inside the simulator task and an exception left the try block before
     -- the task awaited anything: the CancelledError has not been delivered yet
-    pendingCancel := phase == .running && ext.2.2 && c.cause.kind.isInner && c.cause.raiseAfter }
+    pendingCancel := phase == .running && ext.2.2 && c.cause.kind.isInner && c.cause.raiseAfter
+    noPersist := if phase == .running && ext.2.2 && c.cause.kind == .handlerErr then c.cause.target else none }
 
 /-- the sets handed to `_stop_sblocks` -/
 def setA (bs : List Blk) (started : List Nat) : List Nat := started.filter fun k => (blk bs k).asyncStop
@@ -484,14 +496,42 @@ def saveOne (bs : List Blk) (p : Plan) (st : List Nat) (k : Nat) : List Nat :=
   else if outputSet bs p k then k :: st.filter (· != k)
   else st.filter (· != k)
 
-/-- `if start_ok and self.persistent_dict is not None: for blk in started_blocks ∩ AddonPersistence:
-    blk.save_persistent_state()` – it returns normally whatever the blocks' states are -/
-def saveStep (bs : List Blk) (p : Plan) (st : List Nat) : List Nat :=
-  if p.phase != .startFailed && p.phase != .afterStart then p.started.foldl (saveOne bs p) st else st
+/-- one `blk.save_persistent_state()` with a storage that may fail at the stop: the new storage, and
+    whether an exception of the storage ESCAPES the method.  `write`: `__setitem__` raises – caught
+    inside, the stale entry is popped; `writePop`: `pop` raises as well – that exception escapes,
+    nothing was changed -/
+def saveOneF (f : SFault) (bs : List Blk) (p : Plan) (st : List Nat) (k : Nat) : List Nat × Bool :=
+  if !(blk bs k).persistent || p.noPersist == some k then (st, false)
+  else match f with
+    | .none => (saveOne bs p st k, false)
+    | .write => (st.filter (· != k), false)
+    | .writePop => (st, true)
+
+/-- the loop over the started blocks; an escaping exception ends it -/
+def saveAllF (f : SFault) (bs : List Blk) (p : Plan) : List Nat → List Nat → List Nat × Bool
+  | [], st => (st, false)
+  | k :: ks, st =>
+    if (saveOneF f bs p st k).2 then ((saveOneF f bs p st k).1, true)
+    else saveAllF f bs p ks (saveOneF f bs p st k).1
+
+/-- `if start_ok and self.persistent_dict is not None: try: for blk in started_blocks ∩
+    AddonPersistence: blk.save_persistent_state(); <write the stop time> except Exception: <log>` –
+    with patches/C08-storage-fault-at-stop-skips-cleanup.diff it returns normally whatever the
+    blocks' states are and whatever the storage does (an escaping exception of the loop, or of the
+    write of the stop time when `f ≠ none`, is logged) -/
+def saveStep (f : SFault) (bs : List Blk) (p : Plan) (st : List Nat) : List Nat :=
+  if p.phase != .startFailed && p.phase != .afterStart then (saveAllF f bs p p.started st).1 else st
 
 /-- entries of the storage before the run -/
 def storage0 (bs : List Blk) : List Nat :=
   (List.range bs.length).filter fun k => (blk bs k).persistent && (blk bs k).restored
+
+/-- entries of the storage when the simulation is terminated: `_init_sblocks_sync_2` saves the state of
+    every persistent block once the initialisation has succeeded -/
+def storageAtStop (bs : List Blk) (p : Plan) : List Nat :=
+  if p.phase == .evalFailed || p.phase == .running then
+    (List.range bs.length).filter fun k => (blk bs k).persistent
+  else storage0 bs
 
 /-- the clean-up of `run_forever` after the events of `p`; `none`: `oa`/`os` are not
     enumerations of the two sets -/
@@ -527,7 +567,7 @@ def finish (c : Cfg) (p0 : Plan) : Option Result :=
       timers := cl.st.timers
       error := some (if p.isError then .failure else .cancelled)
       simDone := true
-      storage := saveStep bs p (storage0 bs) }
+      storage := saveStep c.storageFault bs p (storageAtStop bs p) }
 
 def runForever (c : Cfg) : Option Result :=
   if c.cause.before then
